@@ -1,5 +1,5 @@
 (* C08 — basic lemmas: naturals embedded in Qc, sums over index ranges, shape of the sub-box data. *)
-From Coq Require Import ZArith List QArith Qcanon Bool Arith Lia Lra.
+From Coq Require Import ZArith List QArith Qcanon Bool Arith Lia Lqa.
 From SG Require Import Base.QcUtil Model.Tensor Model.LocalGrids Proofs.TensorRule.
 Import ListNotations.
 Open Scope Qc_scope.
